@@ -595,6 +595,10 @@ func genC10(g *G) {
 	for _, mode := range []int{1, 2, 0} {
 		g.L("republish-inside-cleanup-delay").run(fmt.Sprintf("hls.republish %d", mode))
 	}
+	// HLS served over http only, https only, both, neither: when the input ends the muxer is disposed and the playlist finalised
+	for _, c := range []string{"1 0", "0 1", "1 1", "0 0"} {
+		g.L("hls-ends-" + strings.ReplaceAll(c, " ", "")).run("hls.ends " + c)
+	}
 	// ---- boundary corpus (runs first) ----
 	// S19 witness: durations 3.4 s then 3.8 s, target duration must be >= 4
 	{
